@@ -114,6 +114,21 @@ let run (t : string list) : string =
       let ret = if ret = "-" then None else if ret = "=" then Some [] else Some (lst ret) in
       let idx = V.projection cols ret (lst fields) in
       Stdlib.String.concat "," (Stdlib.List.map hexout (V.project_cols idx cols))
+  (* value_core <context_id|event_type> <n compactions> <hex text>...  (core string column of a flushed zone) *)
+  | "value_core" :: _field :: n :: vals ->
+      let texts = Stdlib.List.map (fun h -> if h = "-" then [] else bytes_of_hex h) vals in
+      let cells = Stdlib.List.map (fun t -> iter (int_of_string n) V.core_compact (V.core_write t)) texts in
+      let rows = Stdlib.List.map (fun c ->
+          "U" ^ hexout (V.core_read c) ^ ";U" ^ hexout (V.core_read_sink c) ^ ";" ^ json_out (V.json_of_utf8 (V.core_read c))) cells in
+      Stdlib.String.concat " " rows ^ " | " ^ Stdlib.String.concat " " (Stdlib.List.map (fun c -> "U" ^ hexout c) cells)
+  (* value_corecell <layout> <hex text> -> returned json ; classes ; ok *)
+  | ["value_corecell"; l; h] ->
+      let t = if h = "-" then [] else bytes_of_hex h in
+      json_out (V.returned_core (layout_in l) t) ^ " " ^ (if V.utf8_reparsed t then "Utf8ReparsedOnRender" else "-") ^ " ok"
+  (* value_for <layout> <hex query ctx> <hex stored ctx> -> 1 when the read FOR q returns an event stored under ctx *)
+  | ["value_for"; l; q; c] ->
+      let b h = if h = "-" then [] else bytes_of_hex h in
+      if V.for_selects (layout_in l) (b q) (b c) then "1" else "0"
   | _ -> "UNKNOWN_PROBE"
 
 let init () = Registry.register "value_" run
